@@ -29,6 +29,38 @@ def state_sig(t):
     return rec(t.__getstate__())
 
 
+def twin_extras(fam, is_set, is_tree, keys, vals):
+    """C09: arguments outside the family's domain and int subclasses, through
+    every call that takes a key (reads report absence, writes raise TypeError
+    and change nothing - in both implementations)."""
+    bad = ["x", 2 ** 70, 1.5, (1,), b"toolong-bytes"]
+    if fam[0] != "O":
+        bad.append(None)
+    sub = [True] if fam[0] in "IULQ" else []
+    fill = tuple((("add", k) if is_set else ("setitem", k, vals[0])) for k in keys[:4])
+    for b in bad + sub:
+        if is_set:
+            ops = [("add", b), ("remove", b), ("discard", b), ("contains", b), ("supdate", (b,)), ("isub", (b,))]
+        else:
+            ops = [("setitem", b, vals[0]), ("delitem", b), ("get", b), ("get", b, vals[1]), ("getitem", b),
+                   ("contains", b), ("has_key", b), ("pop", b), ("pop", b, vals[1]), ("setdefault", b, vals[0]),
+                   ("update", ((b, vals[0]),))]
+            if is_tree:
+                ops.append(("insert", b, vals[0]))
+            if fam[1] != "O":
+                ops += [("setitem", keys[0], "not-a-value"), ("setdefault", keys[-1], None)]
+        for op in ops:
+            yield (op,)
+            yield fill + (op, ("len",))
+
+
+def typed(x):
+    """type-sensitive rendering: True and 1 are different stored keys"""
+    if isinstance(x, tuple):
+        return tuple(typed(y) for y in x)
+    return (type(x).__name__, x)
+
+
 def run_config(s, fam, kind, impl, sizes, mode, budget):
     is_set = kind in ("Set", "TreeSet")
     is_tree = kind in ("BTree", "TreeSet")
@@ -49,8 +81,15 @@ def run_config(s, fam, kind, impl, sizes, mode, budget):
     shapes = set()
     tag = "%s%s%s" % (fam, kind, "Py" if impl == "py" else "")
     qs = H.tier() == "quick"
+    import itertools
     gen = H.histories(core, full, H.seed() * 7919 + hash((fam, kind, impl, sizes)) % 1000,
                       exhaustive_len=3 if qs else 4, n_random=budget, random_len=26)
+    if is_tree:
+        # deep phase: 10 keys of the family (no extremes needed) reach 4 levels at 2/2
+        deep_keys = H.keys_of(fam, 10 if qs else 12)
+        gen = itertools.chain(gen, H.deep_histories(is_set, deep_keys, vals))
+    if mode == "twin":
+        gen = itertools.chain(gen, twin_extras(fam, is_set, is_tree, keys, vals))
     nfail = 0
     for h in gen:
         if nfail >= 6:
@@ -59,8 +98,10 @@ def run_config(s, fam, kind, impl, sizes, mode, budget):
         u = twin() if twin else None
         ref = H.RefMap(is_set)
         for i, op in enumerate(h):
-            before = ref.contents()
-            r_ref = H.apply_ref(ref, op)
+            if mode == "twin":
+                r_ref = None          # the twin is the oracle; the reference map is not consulted
+            else:
+                r_ref = H.apply_ref(ref, op)
             r_imp = H.apply_impl(t, op)
             s.evaluations += 1
             hist = [list(map(repr, o)) for o in h[:i + 1]]
@@ -99,15 +140,18 @@ def run_config(s, fam, kind, impl, sizes, mode, budget):
             elif mode == "twin":
                 r_tw = H.apply_impl(u, op)
                 if not H.same_result(r_imp, r_tw):
-                    bad = ("twin-result", "call %r: %s %r, twin %r" % (op, impl, r_imp, r_tw))
+                    oc = lambda r: r[1] if r[0] == "exc" else "ret"
+                    bad = ("twin-result", "call %r: %s %r, twin %r" % (op, impl, r_imp, r_tw),
+                           "%s/%s" % (oc(r_imp), oc(r_tw)))
                 else:
-                    a, b = state_sig(t), state_sig(u)
+                    a, b = typed(state_sig(t)), typed(state_sig(u))
                     if a != b:
                         bad = ("twin-state", "after %r states differ: %r vs %r" % (op, a, b))
             if bad:
                 nfail += 1
                 s.failures.append(Failure(
-                    key="%s:%s:%s:%s:%s" % (mode, "py" if impl == "py" else "c", kind, bad[0], op[0]),
+                    key="%s:%s:%s:%s:%s" % (mode, "py" if impl == "py" else "c", kind, bad[0], op[0]) +
+                        (":" + bad[2] if len(bad) > 2 else ""),
                     desc="%s sizes=%s: %s" % (tag, sizes, bad[1]),
                     repro={"family": fam, "kind": kind, "impl": impl, "sizes": list(sizes), "history": hist}))
                 break
@@ -116,7 +160,7 @@ def run_config(s, fam, kind, impl, sizes, mode, budget):
                 shapes.add(H.shape(t, is_set))
             except Exception:
                 pass
-        elif not is_tree:
+        elif not is_tree and mode != "twin":
             shapes.add(tuple(ref.keys()))
     s.distinct_nontrivial += len(shapes)
     return time.time() - t0
